@@ -29,6 +29,26 @@ pub mod sfmt {
     /// the document: mode 0 follows the newtype protocol, other modes violate it
     pub struct Fmt<T> { pub v: T, pub ok: bool, pub mode: u8 }
 
+    /// a sequence / map holding exactly the inner value (for documents that present the newtype as a
+    /// 1-element sequence or a 1-entry map instead of a newtype struct)
+    pub struct OneSeq<T> { pub v: Option<Prim<T>> }
+    impl<'de, T> de::SeqAccess<'de> for OneSeq<T> where Prim<T>: Deserializer<'de, Error = DErr> {
+        type Error = DErr;
+        fn next_element_seed<S: de::DeserializeSeed<'de>>(&mut self, seed: S) -> Result<Option<S::Value>, DErr> {
+            match self.v.take() { Some(p) => seed.deserialize(p).map(Some), None => Ok(None) }
+        }
+    }
+    pub struct OneMap<T> { pub v: Option<Prim<T>>, pub key_done: bool }
+    impl<'de, T> de::MapAccess<'de> for OneMap<T> where Prim<T>: Deserializer<'de, Error = DErr> {
+        type Error = DErr;
+        fn next_key_seed<K: de::DeserializeSeed<'de>>(&mut self, seed: K) -> Result<Option<K::Value>, DErr> {
+            if self.key_done { return Ok(None); }
+            self.key_done = true;
+            match self.v.take() { Some(p) => seed.deserialize(p).map(Some), None => Ok(None) }
+        }
+        fn next_value_seed<V: de::DeserializeSeed<'de>>(&mut self, _seed: V) -> Result<V::Value, DErr> { Err(DErr::Other) }
+    }
+
     macro_rules! prim_impl {
         ($t:ty, $de:ident, $visit:ident) => {
             impl<'de> Deserializer<'de> for Prim<$t> {
@@ -54,6 +74,16 @@ pub mod sfmt {
                         4 => visitor.visit_none(),
                         5 => visitor.visit_bool(true),
                         6 => visitor.visit_some(Prim { v: self.v, ok: self.ok }),
+                        7 => visitor.visit_seq(OneSeq { v: Some(Prim { v: self.v, ok: self.ok }) }),
+                        8 => visitor.visit_map(OneMap { v: Some(Prim { v: self.v, ok: self.ok }), key_done: false }),
+                        9 => visitor.visit_i64(7),
+                        10 => visitor.visit_f64(7.0),
+                        11 => visitor.visit_char('7'),
+                        12 => visitor.visit_string(String::from("7")),
+                        13 => visitor.visit_bytes(&[7u8]),
+                        14 => visitor.visit_borrowed_str("7"),
+                        15 => visitor.visit_i128(7),
+                        16 => visitor.visit_u128(7),
                         _ => visitor.visit_u64(7),
                     }
                 }
